@@ -1539,7 +1539,10 @@ type stripedCfg struct {
 
 func runStriped(cfg stripedCfg) (violation string, st map[string]int64) {
 	st = map[string]int64{}
-	total := cfg.Recorders * cfg.PerRec
+	main := cfg.Recorders * cfg.PerRec
+	// ids beyond the main phase are recorded in a fill phase without a drainer: the buffer saturates
+	fill := 16 * cfg.MaxLen * 3
+	total := main + fill
 	s := otter.VerifNewStriped(cfg.MaxLen, total)
 	otter.VerifSetHook(compHook(cfg.Seed, cfg.DelayPerM))
 	defer otter.VerifSetHook(nil)
@@ -1598,7 +1601,48 @@ func runStriped(cfg stripedCfg) (violation string, st map[string]int64) {
 		maxLen.Store(l)
 	}
 	otter.VerifSetHook(nil)
+	// fill phase: nobody drains, every recorder keeps adding: however the table was grown under
+	// contention before, the buffer never holds more than its fixed capacity of 16 entries x MaxLen stripes
+	var next atomic.Int64
+	next.Store(int64(main))
+	for r := 0; r < cfg.Recorders; r++ {
+		wg.Add(1)
+		go func() {
+			defer wg.Done()
+			for {
+				id := int(next.Add(1) - 1)
+				if id >= total {
+					return
+				}
+				switch s.Add(id) {
+				case 0:
+					result[id] = 1
+				case -1:
+					result[id] = 2
+				case 1:
+					result[id] = 3
+				default:
+					result[id] = 4
+				}
+			}
+		}()
+	}
+	wg.Wait()
+	if l := int64(s.Len()); l > maxLen.Load() {
+		maxLen.Store(l)
+	}
+	before := int64(0)
+	for id := 0; id < total; id++ {
+		before += int64(delivered[id])
+	}
 	s.DrainTo(consumer)
+	after := int64(0)
+	for id := 0; id < total; id++ {
+		after += int64(delivered[id])
+	}
+	if after-before > int64(16*cfg.MaxLen) {
+		return fmt.Sprintf("one drain of the saturated buffer delivered %d entries, the fixed capacity is 16 x %d stripes", after-before, cfg.MaxLen), st
+	}
 	s.DrainTo(consumer)
 	if p := bad.Load(); p != nil {
 		return *p, st
